@@ -331,6 +331,12 @@ def build_system(case: SysCase, ctx: _Ctx | None = None):
                         return np.array([f"s{int(n)}" for n in x.tolist()], dtype=object)
                     if const is not None and variant == 2:
                         return ret(const)          # a scalar: _cast_formula_result fills the array
+                    # results whose dtype is not the variable's: a boolean array (a comparison written in the
+                    # formula of an int / float variable), a narrow integer array
+                    if vtype in ("int", "float") and variant == 0 and x.size and bool(((x == 0) | (x == 1)).all()):
+                        return x.astype(bool)
+                    if vtype in ("int", "float") and variant == 3 and x.size and bool((abs(x) < 100).all()):
+                        return x.astype(np.int8)
                     return x.astype(ret)
                 if variant % 2 == 1:
                     def formula(pop, period, parameters):      # three positional arguments
